@@ -49,6 +49,9 @@ type SpecEnv struct {
 	inOld bool
 	// noUnfold: inside the unfolding of a recursive spec function, inner applications stay folded
 	noUnfold bool
+	// freshBase: number of allocations of the function under verification that precede the call whose
+	// postcondition is being applied (0 when the contract is that of the function itself): fresh(x)
+	freshBase int
 }
 
 func (x *Exec) newSpecEnv(fr *Frame, st, old *State) *SpecEnv {
@@ -1327,7 +1330,9 @@ func (x *Exec) specCall(env *SpecEnv, n *ECall) TV {
 		if ref == nil {
 			specFail("fresh() needs a pointer, map or slice")
 		}
-		return TV{IntCmp(">", ref, IntBin("*", IntConstI(refK), x.allocBase)), types.Typ[types.Bool]}
+		// in a callee's postcondition applied at a call site, "allocated during the call" means
+		// younger than everything the caller has allocated so far (env.freshBase)
+		return TV{IntCmp(">", ref, IntBin("*", IntConstI(refK), IntBin("+", x.allocBase, IntConstI(int64(env.freshBase))))), types.Typ[types.Bool]}
 	case "gf": // ghost field of an object: gf(ptr, name) : int
 		a := arg(0)
 		var ref *Term
